@@ -701,22 +701,10 @@ def worker(args) -> Dict[str, Any]:
     chk.t0 = t0  # budgets count from the start of the parent, warm-up included
     budget = chk.wall_budget(150, 780)
     mine = {name: xschema.share(chk.pick(*pair), n_shards) for name, pair in MINIMA.items()}
-    pattern_pace = xschema.Pace(
-        chk, budget * 0.5, budget * 1.5,
-        {"pattern_member_strings_validated": mine["pattern_member_strings_validated"]},
-    )
-    model_pace = xschema.Pace(
-        chk, budget, budget * 3.0,
-        {k: v for k, v in mine.items() if k != "pattern_member_strings_validated"},
-    )
-
-    def run_models(models: List[Tuple[str, str, Optional[Dict[str, str]]]], pace: xschema.Pace) -> None:
-        for idx, (name, text, snippets) in enumerate(models):
-            if pace.over():
-                chk.count("models_skipped_for_budget", len(models) - idx)
-                break
-            check_model(chk, name, text, chk.rng("inst", name), n_instances,
-                        n_xmllint=chk.pick(6, 12), fixture_snippets=snippets, pace=pace)
+    # one pace for everything: stop at the budget if this worker has contributed its share
+    # of every minimum, else go on (up to three budgets) -- patterns and models alternate,
+    # so that a slow machine still sees both
+    pace = xschema.Pace(chk, budget, budget * 3.0, mine)
 
     try:
         # ---- hand-written models first: they are few and name known mechanisms
@@ -726,19 +714,12 @@ def worker(args) -> Dict[str, Any]:
         # the repository's own xsd fixtures (the v3 one takes minutes: never near the deadline)
         fixtures = [(n, t, s) for n, t, s in fixture_cases() if chk.tier == "thorough" or "v3" not in n]
         first += [f for k, f in enumerate(fixtures) if (k + 1) % n_shards == shard]
-        run_models(first, xschema.Pace(chk, budget, budget, {}))
-        # ---- (c) patterns: cheap
+        # ---- (c) one-pattern models
         lab = xschema.PatternLab()
         patterns = pattern_workload(chk, n_patterns)
         shrinks_left = [chk.pick(6, 20)]
         my_patterns = patterns[shard::n_shards]
-        for idx, (source, pattern) in enumerate(my_patterns):
-            if pattern_pace.over():
-                chk.count("patterns_skipped_for_budget", len(my_patterns) - idx)
-                break
-            check_pattern(chk, lab, source, pattern, chk.rng("strings", source, pattern), n_strings, shrinks_left)
         # ---- (a) + (b) generated models and the repository's own small models
-        models: List[Tuple[str, str, Optional[Dict[str, str]]]] = []
         extra: List[Tuple[str, str, Optional[Dict[str, str]]]] = []
         extra += [(n, t, None) for n, t in corpus.small_common()]
         extra = [e for k, e in enumerate(extra) if k % n_shards == shard]
@@ -748,7 +729,7 @@ def worker(args) -> Dict[str, Any]:
             mmg.append((f"mmg/{chk.seed}/{i}", m.text, None))
             for k, v in m.features.items():
                 chk.hist("mmg_features", k, v)
-        # interleave so that a short budget still sees some of each
+        models: List[Tuple[str, str, Optional[Dict[str, str]]]] = list(first)
         while mmg or extra:
             if mmg:
                 models.append(mmg.pop(0))
@@ -756,7 +737,24 @@ def worker(args) -> Dict[str, Any]:
                 models.append(mmg.pop(0))
             if extra:
                 models.append(extra.pop(0))
-        run_models(models, model_pace)
+        per_model = max(1, round(len(my_patterns) / max(1, len(models))))
+        pi = mi = 0
+        while pi < len(my_patterns) or mi < len(models):
+            if pace.over():
+                chk.count("patterns_skipped_for_budget", len(my_patterns) - pi)
+                chk.count("models_skipped_for_budget", len(models) - mi)
+                break
+            if mi < len(models):
+                name, text, snippets = models[mi]
+                mi += 1
+                check_model(chk, name, text, chk.rng("inst", name), n_instances,
+                            n_xmllint=chk.pick(6, 12), fixture_snippets=snippets, pace=pace)
+            for _ in range(per_model if mi < len(models) else len(my_patterns)):
+                if pi >= len(my_patterns) or pace.over():
+                    break
+                source, pattern = my_patterns[pi]
+                pi += 1
+                check_pattern(chk, lab, source, pattern, chk.rng("strings", source, pattern), n_strings, shrinks_left)
     except Exception:  # noqa
         chk.harness_error("worker failed: " + traceback.format_exc()[-1500:])
     return chk.export()
